@@ -3,6 +3,8 @@
 package vault
 
 import (
+	"time"
+	"sort"
 	"context"
 	"encoding/json"
 	"fmt"
@@ -184,7 +186,7 @@ var c12HostileKeys = []string{"k", "k2", "../x", "a/../../b", "..", "../../sys/t
 func isDescendantOrSelf(child, parent string) bool { return strings.HasPrefix(child, parent) }
 
 func TestVerif_C12_Confinement(t *testing.T) {
-	rec := verifx.NewRecorder("C12", "confinement", "a core with namespaces a/, optionally a/b/, and a separately sealed namespace s/; a recording backend mounted twice per namespace (and at a nested path in the root); a broad-policy token and a child token per namespace; actions: backend requests whose storage key is client-controlled (hostile keys: '..', absolute, other mounts' prefixes, NUL, empty, unicode) in every operation, with every namespace's token in every namespace, namespace by context or path prefix; cubbyhole writes and reads by every other token; seal/unseal of s/; restart of the server on the same storage; oracle: every physical key touched by the goroutine running a backend handler lies under that mount's own storage prefix; reads never return a value written through another mount; a token works only in its own namespace and below; cubbyhole values reach only their writer; a sealed namespace serves nothing and no storage operation falls under its prefix; non-trivial = a hostile key or a cross-namespace / cross-token attempt that reached routing")
+	rec := verifx.NewRecorder("C12", "confinement", "a core with namespaces a/, optionally a/b/, and a separately sealed namespace s/; a recording backend mounted twice per namespace (and at a nested path in the root); a broad-policy token and a child token per namespace; actions: backend requests whose storage key is client-controlled (hostile keys: '..', absolute, other mounts' prefixes, NUL, empty, unicode) in every operation, with every namespace's token in every namespace, namespace by context or path prefix; cubbyhole writes and reads by every other token; seal/unseal of s/; restart of the server on the same storage; remount of a mount (internal call) and sys/remount called inside a namespace with that namespace's own token and a body destination naming itself, a descendant or - with '..', './..', an absolute path - a namespace outside its subtree (no foreign namespace's mount table may change); oracle: every physical key touched by the goroutine running a backend handler lies under that mount's own storage prefix; reads never return a value written through another mount; a token works only in its own namespace and below; cubbyhole values reach only their writer; a sealed namespace serves nothing and no storage operation falls under its prefix; non-trivial = a hostile key or a cross-namespace / cross-token attempt that reached routing")
 	defer rec.Flush()
 	rapid.Check(t, func(rt *rapid.T) {
 		defer recoverWedged(rec)
@@ -194,6 +196,7 @@ func TestVerif_C12_Confinement(t *testing.T) {
 		nontrivial := false
 		restarts := 0
 		hostileN, crossNS, cubbyN, sealedN := 0, 0, 0, 0
+		lateShares := 0
 		fail := func(sig, msg string) {
 			rec.Violation(rt, sig, map[string]any{"history": w.log}, "%s; history=%v", msg, w.log)
 		}
@@ -473,6 +476,137 @@ func TestVerif_C12_Confinement(t *testing.T) {
 				m.physPfx = newPfx
 				nontrivial = true
 			},
+			// sys/remount called inside a namespace by that namespace's own administrator token, with a destination given
+			// in the request body that names the same namespace, a descendant, or - climbing with '..' / './..' or with an
+			// absolute path - a namespace outside the caller's subtree. Whatever the request answers, the token has no
+			// authority outside its namespace and its descendants: no mount may appear in, or vanish from, any other
+			// namespace.
+			"remount-api": func(rt *rapid.T) {
+				var cands []*c12Mount
+				for _, m := range w.mounts {
+					if m.ns.path != "" && !m.ns.sealed && !m.ns.sealable && !m.emptySeg {
+						cands = append(cands, m)
+					}
+				}
+				if len(cands) == 0 {
+					rt.Skip("nothing to move")
+				}
+				m := cands[fairIndex(rt, "mount", len(cands))]
+				src := m.ns
+				var dsts []*c12NS
+				for _, n := range w.nss {
+					if !n.sealed && !n.sealable {
+						dsts = append(dsts, n)
+					}
+				}
+				dst := dsts[fairIndex(rt, "dst", len(dsts))]
+				w.nwrite++
+				leaf := fmt.Sprintf("mv%d", w.nwrite)
+				inside := isDescendantOrSelf(dst.path, src.path)
+				var to string
+				if inside {
+					to = strings.TrimPrefix(dst.path, src.path) + leaf
+					if rapid.IntRange(0, 3).Draw(rt, "dotPrefix") == 0 {
+						to = "./" + to
+					}
+				} else {
+					ups := strings.Repeat("../", strings.Count(src.path, "/"))
+					to = []string{ups + dst.path + leaf, "./" + ups + dst.path + leaf, "/" + dst.path + leaf, "x/../" + ups + dst.path + leaf}[rapid.IntRange(0, 3).Draw(rt, "climbForm")]
+				}
+				tables := func() map[string]string {
+					out := map[string]string{}
+					for _, n := range w.nss {
+						if n.sealed {
+							continue
+						}
+						r := tc.doCtx(w.ctx(n), &logical.Request{Operation: logical.ReadOperation, Path: "sys/mounts", ClientToken: tc.root})
+						var ks []string
+						if r.ok() && r.resp != nil {
+							for k := range r.resp.Data {
+								ks = append(ks, k)
+							}
+						}
+						sort.Strings(ks)
+						out[n.path] = strings.Join(ks, " ")
+					}
+					return out
+				}
+				before := tables()
+				marker := fmt.Sprintf("MARK-m%d-%d", m.id, w.nwrite)
+				if pre := tc.doCtx(w.ctx(src), &logical.Request{Operation: logical.UpdateOperation, Path: m.path + "kv/moved", ClientToken: tc.root, Data: map[string]any{"v": marker}}); !pre.ok() {
+					t.Fatalf("harness: write before remount: %v", pre)
+				}
+				res := tc.doCtx(w.ctx(src), &logical.Request{Operation: logical.UpdateOperation, Path: "sys/remount", ClientToken: src.token, Data: map[string]any{"from": m.path, "to": to}})
+				status := "refused"
+				if res.ok() && res.resp != nil {
+					id, _ := res.resp.Data["migration_id"].(string)
+					status = "in-progress"
+					deadline := time.Now().Add(15 * time.Second)
+					for id != "" && time.Now().Before(deadline) {
+						if info := tc.c.readMigrationStatus(id); info != nil {
+							status = info.MigrationStatus
+						}
+						if status == "success" || status == "failure" {
+							break
+						}
+						time.Sleep(2 * time.Millisecond)
+					}
+				}
+				w.logf("sys/remount in %s by its own token: from=%s to=%q -> %v (migration %s)", src.path, m.path, to, res, status)
+				if status != "refused" && status != "success" && status != "failure" {
+					// the model no longer knows where the mount is: the rest of the case would be judged on a guess
+					rec.Note("inconclusive: remount migration in state %q after 15s", status)
+					panic(errCoreWedged)
+				}
+				after := tables()
+				for _, n := range w.nss {
+					if n.sealed || isDescendantOrSelf(n.path, src.path) {
+						continue
+					}
+					if before[n.path] != after[n.path] {
+						fail("remount-by-namespace-token-changes-foreign-namespace", fmt.Sprintf("sys/remount from=%q to=%q called in %q with that namespace's own token answered %v; the mount table of namespace %q, outside the caller's namespace and descendants, changed from [%s] to [%s]", m.path, to, src.path, res, n.path, before[n.path], after[n.path]))
+					}
+				}
+				nontrivial = nontrivial || !inside
+				if status != "success" {
+					return
+				}
+				// accepted and finished: the mount now lives where the (lexically resolved) destination says; find it
+				var landed *c12NS
+				landedPath := ""
+				for _, n := range w.nss {
+					if n.sealed {
+						continue
+					}
+					for _, e := range strings.Fields(after[n.path]) {
+						// an absolute-looking destination is taken relative to the caller's namespace: "/a/mv1" becomes the mount a/mv1/ there
+						if e == leaf+"/" || strings.HasSuffix(e, "/"+leaf+"/") {
+							landed, landedPath = n, e
+						}
+					}
+				}
+				if landed == nil {
+					fail("data-lost-by-remount", fmt.Sprintf("sys/remount from=%q to=%q in %q finished with success but no namespace lists a mount ending in %s/", m.path, to, src.path, leaf))
+					return
+				}
+				m.ns, m.path = landed, landedPath
+				rd := tc.doCtx(w.ctx(landed), &logical.Request{Operation: logical.ReadOperation, Path: m.path + "kv/moved", ClientToken: tc.root})
+				if !rd.ok() || rd.resp == nil || rd.resp.Data["v"] != marker {
+					fail("data-lost-by-remount", fmt.Sprintf("the value written before sys/remount to=%q is not served at %s%s: %v", to, landed.path, m.path, rd))
+				}
+				seq := tc.rec.Seq()
+				pr := tc.doCtx(w.ctx(landed), &logical.Request{Operation: logical.UpdateOperation, Path: m.path + "kv/__probe", ClientToken: tc.root, Data: map[string]any{"v": "probe"}})
+				newPfx := ""
+				for _, o := range tc.rec.OpsSince(seq) {
+					if o.Kind == "put" && strings.HasSuffix(o.Key, "/__probe") {
+						newPfx = strings.TrimSuffix(o.Key, "__probe")
+					}
+				}
+				if !pr.ok() || newPfx == "" || !strings.HasPrefix(newPfx, landed.physPfx) {
+					fail("moved-mount-writes-outside-its-namespace", fmt.Sprintf("after sys/remount to=%q the mount %s%s writes to physical prefix %q, outside that namespace's storage %q (%v)", to, landed.path, m.path, newPfx, landed.physPfx, pr))
+				}
+				m.physPfx = newPfx
+			},
 			// the server is restarted on the same storage: mounts, remounts, tokens and cubbyholes are where they were,
 			// the separately sealed namespace comes back sealed
 			"restart": func(rt *rapid.T) {
@@ -512,14 +646,45 @@ func TestVerif_C12_Confinement(t *testing.T) {
 					w.logf("unseal %s", s.path)
 				} else {
 					parent := w.nss[0]
-					if err := tc.c.namespaceStore.SealNamespace(w.ctx(parent), strings.TrimSuffix(s.path, "/")); err != nil {
-						t.Fatalf("harness: seal namespace: %v", err)
+					// what a peer of an HA cluster would answer right now to "which namespace keys do you have for me":
+					// the namespace's root key, wrapped with the shared keyring (key sharing spares the operator unsealing
+					// a namespace on every node)
+					inFlight, kerr := tc.c.NamespaceKeys(tc.ctx, []string{s.ns.UUID})
+					how := []string{"api", "api", "followed"}[rapid.IntRange(0, 2).Draw(rt, "sealSeenAs")]
+					if how == "api" {
+						if err := tc.c.namespaceStore.SealNamespace(w.ctx(parent), strings.TrimSuffix(s.path, "/")); err != nil {
+							t.Fatalf("harness: seal namespace: %v", err)
+						}
+					} else {
+						// the way a standby learns of it: the namespace's storage entry says manually sealed, and the
+						// invalidation of that entry is delivered
+						stored, err := tc.c.namespaceStore.GetNamespace(tc.ctx, s.ns.UUID)
+						if err != nil || stored == nil {
+							t.Fatalf("harness: namespace entry: %v", err)
+						}
+						stored.ManuallySealed = true
+						if err := tc.c.namespaceStore.writeNamespace(tc.ctx, tc.c.NamespaceView(namespace.RootNamespace), stored); err != nil {
+							t.Fatalf("harness: write namespace entry: %v", err)
+						}
+						if _, _, err := tc.c.namespaceStore.Invalidate(tc.ctx, namespace.RootNamespaceUUID, s.ns.UUID); err != nil {
+							t.Fatalf("harness: invalidate namespace entry: %v", err)
+						}
 					}
 					if !tc.c.NamespaceSealed(s.ns) {
-						t.Fatalf("harness: namespace not sealed after SealNamespace")
+						t.Fatalf("harness: namespace not sealed after seal (%s)", how)
 					}
 					s.sealed = true
-					w.logf("seal %s", s.path)
+					w.logf("seal %s (%s)", s.path, how)
+					if kerr == nil && len(inFlight[s.ns.UUID]) > 0 && rapid.Bool().Draw(rt, "lateKeyShare") {
+						// the key-sharing answer produced before the seal arrives after it: an operator sealed the namespace
+						// and nobody supplied unseal shares since, so it stays sealed
+						err := tc.c.SetNamespaceKeys(tc.ctx, map[string][]byte{s.ns.UUID: inFlight[s.ns.UUID]})
+						w.logf("late key-sharing message for %s -> %v", s.path, err)
+						lateShares++
+						if !tc.c.NamespaceSealed(s.ns) {
+							fail("manually-sealed-namespace-unsealed-by-late-key-share:"+how, fmt.Sprintf("namespace %s was sealed by an operator (%s); a key-sharing message produced before the seal and delivered after it unsealed it again, nobody supplied unseal shares", s.path, how))
+						}
+					}
 				}
 			},
 		})
@@ -528,5 +693,6 @@ func TestVerif_C12_Confinement(t *testing.T) {
 		rec.Class("cross-namespace-requests", int64(crossNS))
 		rec.Class("cubbyhole-cross-reads", int64(cubbyN))
 		rec.Class("requests-into-sealed-namespace", int64(sealedN))
+		rec.Class("late-key-share-after-seal", int64(lateShares))
 	})
 }
